@@ -431,15 +431,16 @@ CORE = ["Dense"]        # classes for which the quick tier runs EVERY (derivatio
 def grid_cells(seed, thorough, layouts):
     """[(case, layout)].  quick: every (derivation, query) pair on the CORE class plus one twelfth of the remaining (class, derivation,
     query) triples (diagonal sampling: every (class, query) and every (derivation, query) pair occurs), layout and warm/cold rotating;
-    thorough: every triple, warm and cold, layout rotating (consecutive classes take consecutive layouts, so every
-    (derivation, query, warm) cell meets all four)."""
+    thorough: every triple (CORE: warm and cold; others alternating), layout rotating over consecutive classes."""
     cells = []
     idx = 0
     for ci, cls in enumerate(CLASSES):
         for di, d in enumerate(DERIVS):
             for qi, q in enumerate(QUERIES):
                 if thorough:
-                    for warm in (False, True):
+                    # CORE classes warm and cold, the others alternating (every (derivation, query) pair meets both and, over the
+                    # consecutive classes, all four layouts)
+                    for warm in ((False, True) if cls in CORE else (bool((ci + di + qi + seed) % 2),)):
                         cells.append((make_case(cls, d, q, warm), layouts[(ci + di + qi + seed + warm) % 4]))
                 else:
                     if cls not in CORE and (ci + 5 * di + qi + seed) % 12 != 0:
